@@ -414,4 +414,147 @@ theorem eval_shr_vs_plain (table xs : List Int) (env : List Val) (s : NStep) (b 
 theorem nSub0 (a b : Int) (h1 : -2147483648 ≤ a - b) (h2 : a - b ≤ 2147483647) : nSub 0 a b = a - b := by
   unfold nSub; rw [npu_shift0, clamp_id _ h1 h2]
 
+/-! ## Part C — the segments through the interpreter -/
+
+def hs0 (P : Params) : NStep :=
+  { kind := .maxpool, a := .input, b := none, rounding := .tfl, mult := 1, shift := 0, aZp := P.zpIn, bZp := 0, in32 := false,
+    ofm32 := false, ozp := P.zpIn, lut := none, actMin := max P.qmin (-32768), actMax := min P.qmax 32767 }
+def hs3 (P : Params) : NStep :=
+  { kind := .reduceSum, a := .pass 2, b := none, rounding := .tfl, mult := 1, shift := 0, aZp := 0, bZp := 0, in32 := true,
+    ofm32 := true, ozp := P.zpIn, lut := none, actMin := -32768, actMax := 32767 }
+def hs4 (P : Params) : NStep :=
+  { kind := .clz, a := .pass 3, b := none, rounding := .tfl, mult := 1, shift := 0, aZp := 0, bZp := 0, in32 := true,
+    ofm32 := true, ozp := P.zpIn, lut := none, actMin := -32768, actMax := 32767 }
+
+theorem headProg_eq (P : Params) : headProg P =
+    [ hs0 P, lutStep P, w32 .shr (.pass 1) (.const 12 ⟨.none, P.zpIn⟩) .natural 1 0 P.zpIn, hs3 P, hs4 P,
+      w32 .sub (.const (12 + 31 - 8) ⟨.none, P.zpIn⟩) (.pass 4) .tfl 1 0 P.zpIn,
+      w32 .sub (.pass 4) (.const 1 ⟨.none, P.zpIn⟩) .tfl 1 0 P.zpIn,
+      w32 .shl (.pass 3) (.pass 6) .tfl 1 0 P.zpIn,
+      w32 .sub (.pass 7) (.const (2 ^ 30) ⟨.none, P.zpIn⟩) .tfl 1 0 P.zpIn,
+      w32 .shl (.pass 8) (.const 1 ⟨.none, P.zpIn⟩) .tfl 1 0 P.zpIn ] := rfl
+
+/-- **passes 0 – 9 through the interpreter**: maximum, exponentials from the reference table, their `>> 12`, the sum, its
+    headroom, the two shift amounts and the normalised sum minus one -/
+theorem head_chain (P : Params) (mult : Int) (ls : Nat) (diffMin : Int) (x0 : Int) (rest : List Int) (S : Int) (h : Nat)
+    (hq1 : -32768 ≤ P.qmin) (hq2 : P.qmax ≤ 32767) (hq : P.qmax = P.qmin + 255)
+    (hx : ∀ x ∈ x0 :: rest, P.qmin ≤ x ∧ x ≤ P.qmax)
+    (hS : S = (x0 :: rest).foldl (fun a x => a + rdivpot (expZ mult ls diffMin (rest.foldl max x0) x) 12) 0)
+    (hS0 : 0 ≤ S) (hS1 : S ≤ 2147483647) (h4 : 4 ≤ h) (h12 : h ≤ 12) (hc : NpuWide.clz32 S = (h : Int))
+    (hn0 : 0 ≤ normZ S h) (hn1 : normZ S h ≤ 2147483647) :
+    ∃ v7 v8 : Int, runSteps (SoftmaxKernel.expTable8 mult ls diffMin) (x0 :: rest) (headProg P) [] =
+      .ok [.scal (rest.foldl max x0), .vec ((x0 :: rest).map (expZ mult ls diffMin (rest.foldl max x0))),
+        .vec ((x0 :: rest).map fun x => rdivpot (expZ mult ls diffMin (rest.foldl max x0) x) 12), .scal S, .scal (h : Int),
+        .scal (35 - (h : Int)), .scal ((h : Int) - 1), .scal v7, .scal v8, .scal (normZ S h)] := by
+  obtain ⟨m1, m2, m3⟩ := foldl_max_facts rest x0
+  have hmxmem : rest.foldl max x0 ∈ x0 :: rest := by
+    rcases m1 with e | e
+    · rw [e]; exact List.mem_cons_self
+    · exact List.mem_cons_of_mem _ e
+  generalize hmxe : rest.foldl max x0 = mx at *
+  obtain ⟨mxlo, mxhi⟩ := hx mx hmxmem
+  have hle : ∀ x ∈ x0 :: rest, x ≤ mx := by
+    intro x hx'
+    rcases List.mem_cons.1 hx' with e | e
+    · rw [e]; exact m2
+    · exact m3 x e
+  generalize htab : SoftmaxKernel.expTable8 mult ls diffMin = table at *
+  generalize hxs : x0 :: rest = xs at *
+  obtain ⟨h', rfl⟩ : ∃ h', h = h' + 1 := ⟨h - 1, by omega⟩
+  have hpow : S * (2 : Int) ^ (h' + 1) = S * 2 ^ h' * 2 := by rw [Int.pow_succ, Int.mul_assoc]
+  unfold normZ at hn0 hn1 ⊢
+  rw [hpow] at hn0 hn1 ⊢
+  -- pass 0
+  have e0 : evalStep table xs [] (hs0 P) = .ok (.scal mx) := by
+    rw [← hxs, eval_maxpool table x0 rest [] (hs0 P) rfl rfl, hmxe]
+    show Except.ok (Val.scal (clamp (mx - P.zpIn + P.zpIn) (max P.qmin (-32768)) (min P.qmax 32767))) = _
+    have : clamp (mx - P.zpIn + P.zpIn) (max P.qmin (-32768)) (min P.qmax 32767) = mx := by
+      unfold clamp; split
+      · omega
+      · split <;> omega
+    rw [this]
+  -- pass 1
+  have e1 : evalStep table xs [.scal mx] (lutStep P) = .ok (.vec (xs.map (expZ mult ls diffMin mx))) := by
+    rw [← htab]
+    exact eval_lutStep P mult ls diffMin mx xs _ rfl (fun x hx' => by have := hx x hx'; have := hle x hx'; omega)
+  -- pass 2
+  have e2 : evalStep table xs [.scal mx, .vec (xs.map (expZ mult ls diffMin mx))]
+      (w32 .shr (.pass 1) (.const 12 ⟨.none, P.zpIn⟩) .natural 1 0 P.zpIn) =
+      .ok (.vec (xs.map fun x => rdivpot (expZ mult ls diffMin mx x) 12)) := by
+    rw [eval_shr_vs table xs _ _ (.const 12 ⟨.none, P.zpIn⟩) (xs.map (expZ mult ls diffMin mx)) 12 rfl rfl
+      ⟨rfl, rfl, rfl, rfl, rfl⟩ rfl rfl rfl (by decide) (by decide), List.map_map]
+    congr 2
+    apply List.map_congr_left
+    intro x _
+    obtain ⟨r0, r1⟩ := expZ_range mult ls diffMin mx x
+    obtain ⟨d0, d1⟩ := rdivpot12_range _ r0 r1
+    simp only [Function.comp, show (12 : Int).toNat = 12 from rfl]
+    rw [Props.C01Wide.shr_natural_eq_rdivpot _ 12 r0, clamp_id _ (by omega) (by omega)]
+  -- pass 3
+  have e3 : evalStep table xs [.scal mx, .vec (xs.map (expZ mult ls diffMin mx)),
+      .vec (xs.map fun x => rdivpot (expZ mult ls diffMin mx x) 12)] (hs3 P) = .ok (.scal S) := by
+    rw [eval_reduceSum table xs _ (hs3 P) (xs.map fun x => rdivpot (expZ mult ls diffMin mx x) 12) rfl rfl rfl rfl rfl rfl rfl rfl,
+      List.foldl_map, ← hS, clamp_id _ (by omega) (by omega)]
+  -- pass 4
+  have e4 : evalStep table xs [.scal mx, .vec (xs.map (expZ mult ls diffMin mx)),
+      .vec (xs.map fun x => rdivpot (expZ mult ls diffMin mx x) 12), .scal S] (hs4 P) = .ok (.scal ((h' + 1 : Nat) : Int)) := by
+    rw [eval_clz_s table xs _ (hs4 P) S rfl ⟨rfl, rfl, rfl, rfl, rfl⟩ rfl, hc, clamp_id _ (by omega) (by omega)]
+  -- pass 5
+  have e5 : evalStep table xs [.scal mx, .vec (xs.map (expZ mult ls diffMin mx)),
+      .vec (xs.map fun x => rdivpot (expZ mult ls diffMin mx x) 12), .scal S, .scal ((h' + 1 : Nat) : Int)]
+      (w32 .sub (.const (12 + 31 - 8) ⟨.none, P.zpIn⟩) (.pass 4) .tfl 1 0 P.zpIn) = .ok (.scal (35 - ((h' + 1 : Nat) : Int))) := by
+    rw [eval_sub_ss table xs _ _ (.pass 4) 0 (12 + 31 - 8) ((h' + 1 : Nat) : Int) rfl rfl ⟨rfl, rfl, rfl, rfl, rfl⟩ rfl
+      (ofs_1_0 _ _ _ _ _).1 (ofs_1_0 _ _ _ _ _).2 rfl rfl, nSub0 _ _ (by omega) (by omega)]
+    congr 2
+  -- pass 6
+  have e6 : evalStep table xs [.scal mx, .vec (xs.map (expZ mult ls diffMin mx)),
+      .vec (xs.map fun x => rdivpot (expZ mult ls diffMin mx x) 12), .scal S, .scal ((h' + 1 : Nat) : Int),
+      .scal (35 - ((h' + 1 : Nat) : Int))]
+      (w32 .sub (.pass 4) (.const 1 ⟨.none, P.zpIn⟩) .tfl 1 0 P.zpIn) = .ok (.scal (((h' + 1 : Nat) : Int) - 1)) := by
+    rw [eval_sub_ss table xs _ _ (.const 1 ⟨.none, P.zpIn⟩) 0 ((h' + 1 : Nat) : Int) 1 rfl rfl ⟨rfl, rfl, rfl, rfl, rfl⟩ rfl
+      (ofs_1_0 _ _ _ _ _).1 (ofs_1_0 _ _ _ _ _).2 rfl rfl, nSub0 _ _ (by omega) (by omega)]
+  have ht : ((((h' + 1 : Nat) : Int)) - 1).toNat = h' := by omega
+  have hQ0 : 1073741824 ≤ S * 2 ^ h' := by omega
+  have hQ1 : S * 2 ^ h' ≤ 2147483647 := by omega
+  -- pass 7
+  have e7 : evalStep table xs [.scal mx, .vec (xs.map (expZ mult ls diffMin mx)),
+      .vec (xs.map fun x => rdivpot (expZ mult ls diffMin mx x) 12), .scal S, .scal ((h' + 1 : Nat) : Int),
+      .scal (35 - ((h' + 1 : Nat) : Int)), .scal (((h' + 1 : Nat) : Int) - 1)]
+      (w32 .shl (.pass 3) (.pass 6) .tfl 1 0 P.zpIn) = .ok (.scal (S * 2 ^ h')) := by
+    rw [eval_shl_ss table xs _ _ (.pass 6) S (((h' + 1 : Nat) : Int) - 1) rfl rfl ⟨rfl, rfl, rfl, rfl, rfl⟩ rfl rfl
+      (by omega) (by omega) (by rw [ht]; omega) (by rw [ht]; omega), ht]
+  -- pass 8
+  have e8 : evalStep table xs [.scal mx, .vec (xs.map (expZ mult ls diffMin mx)),
+      .vec (xs.map fun x => rdivpot (expZ mult ls diffMin mx x) 12), .scal S, .scal ((h' + 1 : Nat) : Int),
+      .scal (35 - ((h' + 1 : Nat) : Int)), .scal (((h' + 1 : Nat) : Int) - 1), .scal (S * 2 ^ h')]
+      (w32 .sub (.pass 7) (.const (2 ^ 30) ⟨.none, P.zpIn⟩) .tfl 1 0 P.zpIn) = .ok (.scal (S * 2 ^ h' - 1073741824)) := by
+    rw [eval_sub_ss table xs _ _ (.const (2 ^ 30) ⟨.none, P.zpIn⟩) 0 (S * 2 ^ h') (2 ^ 30) rfl rfl ⟨rfl, rfl, rfl, rfl, rfl⟩ rfl
+      (ofs_1_0 _ _ _ _ _).1 (ofs_1_0 _ _ _ _ _).2 rfl rfl]
+    have e30 : (2 : Int) ^ 30 = 1073741824 := by decide
+    rw [e30, nSub0 _ _ (by omega) (by omega)]
+  -- pass 9
+  have e9 : evalStep table xs [.scal mx, .vec (xs.map (expZ mult ls diffMin mx)),
+      .vec (xs.map fun x => rdivpot (expZ mult ls diffMin mx x) 12), .scal S, .scal ((h' + 1 : Nat) : Int),
+      .scal (35 - ((h' + 1 : Nat) : Int)), .scal (((h' + 1 : Nat) : Int) - 1), .scal (S * 2 ^ h'),
+      .scal (S * 2 ^ h' - 1073741824)]
+      (w32 .shl (.pass 8) (.const 1 ⟨.none, P.zpIn⟩) .tfl 1 0 P.zpIn) = .ok (.scal (S * 2 ^ h' * 2 - 2147483648)) := by
+    have e21 : (2 : Int) ^ (1 : Int).toNat = 2 := by decide
+    rw [eval_shl_ss table xs _ _ (.const 1 ⟨.none, P.zpIn⟩) (S * 2 ^ h' - 1073741824) 1 rfl rfl ⟨rfl, rfl, rfl, rfl, rfl⟩ rfl rfl
+      (by decide) (by decide) (by rw [e21]; omega) (by rw [e21]; omega), e21]
+    have : (S * 2 ^ h' - 1073741824) * 2 = S * 2 ^ h' * 2 - 2147483648 := by omega
+    rw [this]
+  refine ⟨S * 2 ^ h', S * 2 ^ h' - 1073741824, ?_⟩
+  rw [headProg_eq]
+  rw [runSteps_cons_ok _ _ _ _ _ _ e0]; simp only [List.cons_append, List.nil_append]
+  rw [runSteps_cons_ok _ _ _ _ _ _ e1]; simp only [List.cons_append, List.nil_append]
+  rw [runSteps_cons_ok _ _ _ _ _ _ e2]; simp only [List.cons_append, List.nil_append]
+  rw [runSteps_cons_ok _ _ _ _ _ _ e3]; simp only [List.cons_append, List.nil_append]
+  rw [runSteps_cons_ok _ _ _ _ _ _ e4]; simp only [List.cons_append, List.nil_append]
+  rw [runSteps_cons_ok _ _ _ _ _ _ e5]; simp only [List.cons_append, List.nil_append]
+  rw [runSteps_cons_ok _ _ _ _ _ _ e6]; simp only [List.cons_append, List.nil_append]
+  rw [runSteps_cons_ok _ _ _ _ _ _ e7]; simp only [List.cons_append, List.nil_append]
+  rw [runSteps_cons_ok _ _ _ _ _ _ e8]; simp only [List.cons_append, List.nil_append]
+  rw [runSteps_cons_ok _ _ _ _ _ _ e9]; simp only [List.cons_append, List.nil_append]
+  rfl
+
 end VelaVerif.Lemmas.SoftmaxRowL
